@@ -152,7 +152,7 @@ CLAIMED = {
              "JavaScript and the engine's trace must equal the model's, in 7 scheduling modes (drained once; a custom executor running 1/2/5 jobs "
              "per run_jobs call; evaluate_async_with_budget 1/7/100).",
         technique="Lean 4 proofs over a promise/job-queue state machine (scheduling independence, FIFO, settle-once) + model-predicted vs real traces of generated promise programs under 7 scheduling modes",
-        note="exactly-once per reaction is checked by the traces, not proved; async generators, combinators and user thenables only scheduling-independence (engine-only).",
+        note="exactly-once is proved per step (settle_schedules_each_once, performThen_pending, performThen_settled: a reaction is stored or scheduled, never both; settling schedules each stored one once, in order); its lift to whole runs is checked by the traces. Async generators are outside the Lean model: generated request sequences are checked against the FIFO oracle of ECMA-262 27.6.3 and across scheduling modes; combinators and user thenables only scheduling-independence (engine-only).",
     ),
     "C18": dict(
         level="proof",
@@ -251,9 +251,15 @@ CLAIMED = {
              "storage_independent (no sequence of operations distinguishes two storages that denote the same map). Tied to the code by a "
              "line-by-line correspondence on a real PropertyMap (incl. the active variant) and by the property's own differential: the same "
              "content built through six recipes landing in different storage forms, same array operations, structural dumps compared after "
-             "every step and with the array-like form.",
-        technique="Lean 4 refinement proofs (5 storage variants -> finite map) + PropertyMap correspondence + cross-storage JS differential",
-        note="Array.prototype algorithms are compared across storage forms, not specified in Lean; the key order reported over an arbitrarily ordered index storage is proved under C20 (ownKeys_eq_spec, ownKeys_storage_independent).",
+             "every step and with the array-like form. The code that BYPASSES the storage API is modelled too (FastPaths.lean): the VM's dense "
+             "paths for a[i] and a[i] = v (get_dense_property / set_dense_property), the dense path of Array.prototype.shift, and the generic "
+             "shift algorithm written over get/insert/remove: abs_getDense, abs_setDense, abs_shiftDense (each denotes the map operation), "
+             "shiftGeneric_abs (closed form of steps 4-7 on ANY variant, holes included), shift_fast_eq_generic (fast path = generic algorithm), "
+             "jsSet_abs / jsGet_abs / jsShift_abs and js_storage_independent (a[k], a[k] = v and a.shift() cannot tell two storages of the same "
+             "contents apart). Tie: a real array driven through the VM and the builtins, storage variant + length + contents compared with the "
+             "model after every operation.",
+        technique="Lean 4 refinement proofs (5 storage variants -> finite map; VM dense get/set and Array.prototype.shift fast paths = generic algorithm) + PropertyMap and real-array correspondence + cross-storage JS differential",
+        note="The other Array.prototype algorithms and the writability of `length` are compared across storage forms, not specified in Lean; the key order reported over an arbitrarily ordered index storage is proved under C20 (ownKeys_eq_spec, ownKeys_storage_independent).",
     ),
     "C05": dict(
         level="proof",
